@@ -162,7 +162,12 @@ func runC05(r *R) {
 		cancelAt = time.Duration(f.Draw(5)) * time.Second
 	}
 	stalls := w.Draw(5) == 0
-	desc := fmt.Sprintf("pools=%v cancel=%d@%v stalls=%v", pools, cancelPhase, cancelAt, stalls)
+	// nothing requires the ids of the pools to differ: one run in six with several pools gives them all the same id
+	sameIDs := npools > 1 && w.Draw(6) == 0
+	if sameIDs {
+		r.Note("pools-with-equal-ids")
+	}
+	desc := fmt.Sprintf("pools=%v cancel=%d@%v stalls=%v equal-ids=%v", pools, cancelPhase, cancelAt, stalls, sameIDs)
 	r.Sample(map[string]any{"pools": fmt.Sprint(pools), "cancel_phase": cancelPhase, "cancel_at": cancelAt.String(), "stalls": stalls})
 
 	const G = 10 * time.Second
@@ -234,8 +239,12 @@ func runC05(r *R) {
 			if err != nil {
 				panic(err)
 			}
+			id := fmt.Sprintf("p%d", i)
+			if sameIDs {
+				id = "pool"
+			}
 			confs = append(confs, engine.InstancePoolConfig{
-				ID:              fmt.Sprintf("p%d", i),
+				ID:              id,
 				Provider:        rt.prov,
 				Aggregator:      rt.aggr,
 				NewGun:          rt.fac.New,
